@@ -550,6 +550,12 @@ func edgeGrid() []seqSpec {
 			one("corpus-parquet-reader-panic", reqParquet("db2", "m", raw, "corpus-parquet"))
 		}
 	}
+	// a 458-byte upload (column chunk without metadata) on which pqarrow panics on a reader GOROUTINE
+	if b, err := os.ReadFile("/verif/corpus/C04/parquet-import-goroutine-crash.hex"); err == nil {
+		if raw, err := hex.DecodeString(strings.TrimSpace(string(b))); err == nil {
+			one("corpus-parquet-goroutine-crash", reqParquet("db1", "m", raw, "corpus-parquet-crash"))
+		}
+	}
 	return out
 }
 
